@@ -6,5 +6,6 @@ CONSTANTS DevNums = {0, 1, 3}
  SepCols = {0, 1, 2, 3, 4}
  MaxPasses = 2
  ResetGroups = FALSE
+ SkipLastCardCheck = FALSE
 INVARIANTS C19_no_collision C19_groups_cover
 CHECK_DEADLOCK FALSE
